@@ -4,6 +4,8 @@
 cd "$(dirname "$0")/.."
 git -C /repo diff --quiet || { echo "/repo working tree not clean"; exit 2; }
 FAILS=0
+# the mutant runs rewrite evidence/<id>.json: keep the clean ones
+EVSAVE=$(mktemp -d); cp -a evidence/. "$EVSAVE"/
 while IFS=$'\t' read -r NAME PROP FILE SED EXPECT; do
   case "$NAME" in \#*|"") continue;; esac
   [ -n "$1" ] && [ "$1" != "$NAME" ] && continue
@@ -14,4 +16,5 @@ while IFS=$'\t' read -r NAME PROP FILE SED EXPECT; do
   if [ $RC -eq 1 ] && grep -qF "$EXPECT" /tmp/selftest_$$.log; then echo "MUTANT $NAME ($PROP): detected by $EXPECT"; else echo "MUTANT $NAME ($PROP): NOT detected as expected (exit $RC)"; grep "obligation" /tmp/selftest_$$.log | head -3; FAILS=$((FAILS+1)); fi
 done < selftest/mutants.tsv
 rm -f /tmp/selftest_$$.log
+rm -rf evidence; mkdir -p evidence; cp -a "$EVSAVE"/. evidence/; rm -rf "$EVSAVE"
 echo "selftest: $FAILS failures"; [ $FAILS -eq 0 ]
